@@ -58,6 +58,16 @@ func main() {
 			*tier = t
 		}
 		os.Exit(run(id, *tier, *only))
+	case "checkall":
+		// every property in one process over one loaded program (development aid: the registered commands run
+		// one property per process)
+		code := 0
+		for i := 1; i <= 20; i++ {
+			if rc := run(fmt.Sprintf("C%02d", i), "quick", ""); rc != 0 {
+				code = 1
+			}
+		}
+		os.Exit(code)
 	default:
 		usage()
 	}
@@ -96,7 +106,7 @@ func run(id, tier, only string) (code int) {
 					fatal = fmt.Errorf("checker panic (%s): %v\n%s", bc, e, debug.Stack())
 				}
 			}()
-			p, err := ir.Load(ir.RepoDir(), bc, nil)
+			p, err := loadShared(bc)
 			if err != nil {
 				if i == 0 {
 					fatal = err
@@ -127,6 +137,21 @@ func run(id, tier, only string) (code int) {
 	}
 	rep.Only(only)
 	return rep.Finish(fatal)
+}
+
+// loadShared loads the program once per build context and process (checkall runs twenty checks over it).
+var progCache = map[string]*ir.Program{}
+
+func loadShared(bc ir.BuildCtx) (*ir.Program, error) {
+	k := ir.RepoDir() + "|" + bc.String()
+	if p := progCache[k]; p != nil {
+		return p, nil
+	}
+	p, err := ir.Load(ir.RepoDir(), bc, nil)
+	if err == nil {
+		progCache[k] = p
+	}
+	return p, err
 }
 
 type controlResult struct {
